@@ -4,7 +4,7 @@
    final database must agree, and the cumulative set of upstream outputs
    must be the one the model produced. *)
 From Coq Require Import List NArith Bool Arith.
-From LV Require Import Arb.RestartModel.
+From LV Require Import Arb.RestartModel Arb.RestartIncModel.
 Import ListNotations.
 
 Definition astate_code (s : astate) : N :=
@@ -24,7 +24,10 @@ Record case := mkCase {
   c_scen : scen;
   c_items : list item;
   c_end : osnap;
-  c_outs : list out
+  c_outs : list out;
+  (* resolvers of received htlcs: the scenario's script for that key must be
+     RestartIncModel.inc_script of these parameters / this branch *)
+  c_inc : list (iparams * bool)
 }.
 
 Definition out_eqb (a b : out) : bool :=
@@ -39,6 +42,22 @@ Definition out_eqb (a b : out) : bool :=
   end.
 
 Definition pair_eqb (a b : N * N) : bool := N.eqb (fst a) (fst b) && N.eqb (snd a) (snd b).
+
+Fixpoint list_eqb {A} (eqb : A -> A -> bool) (l1 l2 : list A) : bool :=
+  match l1, l2 with
+  | [], [] => true
+  | a :: r1, b :: r2 => eqb a b && list_eqb eqb r1 r2
+  | _, _ => false
+  end.
+
+Definition stage_eqb (a b : stage) : bool :=
+  list_eqb out_eqb (s_outs a) (s_outs b) && list_eqb pair_eqb (s_rep a) (s_rep b).
+
+Definition inc_ok (sc : scen) (x : iparams * bool) : bool :=
+  match find_spec sc (ip_key (fst x)) with
+  | Some r => list_eqb stage_eqb (r_stages r) (inc_script (fst x) (snd x))
+  | None => false
+  end.
 
 Definition subset {A} (eqb : A -> A -> bool) (l1 l2 : list A) : bool :=
   forallb (fun x => existsb (eqb x) l2) l1.
@@ -146,6 +165,7 @@ Definition check_case (c : case) : list N :=
     (if disk_matches sc (dk s') (c_end c) then [] else [9000%N])
     ++ (if seteq out_eqb (outs s') (c_outs c) then [] else [9001%N])
     ++ (if wf_scen sc then [] else [9002%N])
+    ++ (if forallb (inc_ok sc) (c_inc c) then [] else [9003%N])
   | (_, bad) => bad
   end.
 
